@@ -1,7 +1,7 @@
 """run as a subprocess under a given PYTHONHASHSEED: reads a JSON list of matrix descriptions on stdin, prints one JSON line:
 {writer-key: [sha256 of the export of each matrix]}
 or reads {"ms": [descriptions], "order": [[configuration key, matrix index], ...]} and makes the exports in that order (the export
-history of this process); same output, over all configurations of c14.CONFIGS
+history of this process); same output, over all configurations of c14.CONFIGS; with "env": {...} after moving to that environment
 or, with --serve, answers requests for exports made in fresh processes (see serve)"""
 import hashlib
 import json
@@ -23,7 +23,7 @@ def one(d, fmt, opts):
 
 def serve():
     """--serve: this process imports everything, exports NOTHING itself and answers one JSON line per request line:
-    {"ms": [descriptions], "runs": [[[matrix index, configuration key], ...], ...], "text": bool}
+    {"ms": [descriptions], "runs": [[[matrix index, configuration key], ...], ...], "text": bool, "envs": [null | environment per run]}
     -> [[sha256 (or latin-1 text, or "EXC:<type>") of every export of the run], ...].
     Every run is made in a child forked for it alone, i.e. in a process that has exported nothing before the first step of the
     run (the state of a fresh interpreter after the imports).  Within a run every matrix index is ONE object, built at its first
@@ -36,7 +36,7 @@ def serve():
             continue
         job = json.loads(line)
         pipes = []
-        for run in job["runs"]:
+        for n, run in enumerate(job["runs"]):
             r, w = os.pipe()
             pid = os.fork()
             if pid == 0:
@@ -47,6 +47,8 @@ def serve():
                         os.close(r0)
                     dbs = {}
                     res = []
+                    if (job.get("envs") or [None] * (n + 1))[n]:
+                        c14.enter_environment(job["envs"][n])
                     for k, key in run:
                         fmt, opts = c14.CONFIGS[key]
                         try:
@@ -85,6 +87,9 @@ if isinstance(job, list):
         out[key] = [one(d, fmt, opts) for d in job]
 else:
     descs = job["ms"]
+    if job.get("env"):
+        # this process runs somewhere else, at another time (time zone, clock, user, directory, locale)
+        c14.enter_environment(job["env"])
     out = {key: [None] * len(descs) for key in c14.CONFIGS}
     for key, k in job["order"]:
         fmt, opts = c14.CONFIGS[key]
